@@ -993,9 +993,13 @@ func (h *supH) directedRestartSlowStopper(emit func(string)) {
 // on the strength of the instance that ended badly.
 func (h *supH) directedRestartedDependency(emit func(string)) {
 	for _, cond := range []string{"s", "c"} {
-		for _, how := range []string{"fail-start", "stop-start", "restart"} {
+		for _, how := range []string{"fail-start", "stop-start", "restart", "restarting"} {
 			emit("sup coarse 0")
-			emit("proc a no 0 - 0 0 143 -")
+			if how == "restarting" {
+				emit("proc a always 0 - 0 0 143 -")
+			} else {
+				emit("proc a no 0 - 0 0 143 -")
+			}
 			emit(fmt.Sprintf("proc b no 0 x 0 0 0 a:%s", cond))
 			emit("proc k no 0 - 0 0 0 -")
 			emit("deps b a:" + cond)
@@ -1016,8 +1020,22 @@ func (h *supH) directedRestartedDependency(emit func(string)) {
 			case "restart":
 				emit("s call 1 restart a")
 				h.drain(emit)
+			case "restarting":
+				// the dependency is stopped, started again, its new command exits 0 and - policy always -
+				// it sits in the back-off before the next launch: it has not finished
+				emit("s call 1 stop a")
+				h.drain(emit)
+				emit("s call 2 start a")
+				h.drain(emit)
+				emit("s exit a 0")
+				h.drainExcept(emit, "backoff")
 			}
 			emit("s call 3 start b")
+			if how == "restarting" {
+				h.drainExcept(emit, "backoff")
+				emit("s call 4 state b")
+				h.drainExcept(emit, "backoff")
+			}
 			h.drain(emit)
 			emit("s call 4 state b")
 			h.drain(emit)
